@@ -197,20 +197,29 @@ def run(ctx):
                     exp = ivs[i] + slopes[i] * tl[-1] + cnt * ivs[i]
                     if abs(yl[-1][i] - exp) > 1e-12:
                         fails.append(("spikes", "%s: final value %s, expected %s = initial + slope*T + %d spikes x initial value (each spike before the end applied exactly once)" % (names[i], yl[-1][i], exp, cnt)))
-                    # each spike at its own time (precise) / first boundary not before it (aliased)
-                    for s in sorted(set(t for t in run_["spk"].get(str(i), []) if 0 < t < sim and t <= tl[-1])):
-                        mult = run_["spk"][str(i)].count(s)
+                    # each spike at its own time (precise) / first grid boundary not before it (aliased)
+                    ms = run_["max_step"]
+                    allsp = run_["spk"].get(str(i), [])
+                    for s in sorted(set(t for t in allsp if 0 < t < sim and t <= tl[-1])):
                         if not run_["alias"]:
                             if s not in tl:
                                 fails.append(("spikes", "precise mode: spike time %s of %s is not a step boundary" % (s, names[i])))
                                 continue
                             k = tl.index(s)
+                            napplied = sum(1 for s2 in allsp if s2 == s)
                         else:
-                            k = next(j for j, t in enumerate(tl) if t >= s and (abs((t / run_["max_step"]) - round(t / run_["max_step"])) < 1e-9 or j == len(tl) - 1))
+                            import math
+                            tb = math.ceil(s / ms - 1e-12) * ms
+                            ks = [j_ for j_, t in enumerate(tl) if abs(t - tb) < 1e-12]
+                            if not ks:
+                                fails.append(("spikes", "aliased mode: grid boundary %s (first one not before the spike at %s) is not in the time log" % (tb, s)))
+                                continue
+                            k = ks[0]
+                            lo = tb - ms if tb - ms > 1e-12 else float("-inf")
+                            napplied = sum(1 for s2 in allsp if lo < s2 <= tb)
                         before = yl[k - 1][i] + slopes[i] * (tl[k] - tl[k - 1])
-                        others = sum(run_["spk"][str(i)].count(s2) for s2 in set(run_["spk"][str(i)]) if s2 != s and 0 < s2 and (s2 < sim or run_["alias"]) and ((not run_["alias"] and s2 == tl[k]) or (run_["alias"] and tl[k - 1] < s2 <= tl[k])))
-                        if abs(yl[k][i] - (before + (mult + others) * ivs[i])) > 1e-12:
-                            fails.append(("spikes", "%s: spike at %s (x%d) not applied at step boundary %s: value %s, expected %s" % (names[i], s, mult, tl[k], yl[k][i], before + (mult + others) * ivs[i])))
+                        if abs(yl[k][i] - (before + napplied * ivs[i])) > 1e-12:
+                            fails.append(("spikes", "%s: the %d spike(s) due at step boundary %s (among them the one at %s) were not applied there exactly once: value %s, expected %s" % (names[i], napplied, tl[k], s, yl[k][i], before + napplied * ivs[i])))
             for key, what in fails[:2]:
                 kk = "lower bound not enforced" if key == "lower_bound" else "%s: %s" % (key, C.stable_hash([si, run_]))
                 probe_failures.append({"key": kk, "what": what + " | system %s run %s" % (SYSTEMS[si][0]["dynamics"], run_), "replay": {"system": si, "run": run_}})
